@@ -79,6 +79,7 @@ def base_state(app):
     s.do(op='rp_traits_put', v=39, u='p1', gen=s.gen('p1'), traits=['CUSTOM_T1', 'HW_CPU_X86_AVX'])
     s.do(op='agg_put', v=39, u='p1', gen=s.gen('p1'), aggs=['agg1'])
     s.put('c1', {'p1': {'VCPU': 1, 'DISK_GB': 5}})
+    s.put('c3', {'p2': {'VCPU': 2}}, project='proj2', user='user2')
     app.snapshot('surf')
     return rec.state()[0]
 
@@ -211,6 +212,16 @@ def feature_probes(app):
         st, h, j = call('GET', ac, v)
         ars = (j or {}).get('allocation_requests') or [{}]
         return ars[0]
+    def has_code(resp, status):
+        st, h, j = resp
+        if st != status:
+            raise AssertionError('probe answered %s, not %s' % (st, status))
+        return 'code' in ((j or {}).get('errors') or [{}])[0]
+
+    def provider_inuse(v):
+        st = call('PUT', c2, 39, _alloc_body(39, allocs={U('p2'): {'resources': {'VCPU': 1}}}))[0]
+        assert st == 204, st
+        return has_code(call('DELETE', rp2, v), 409)
     P = {
         'rp_list_member_of': ok('GET', '/resource_providers?member_of=' + agg1),
         'rp_list_resources': ok('GET', '/resource_providers?resources=VCPU:1'),
@@ -239,6 +250,14 @@ def feature_probes(app):
         'ac_forbidden_trait': ok('GET', ac + '&required=!CUSTOM_T2'),
         'rp_list_forbidden_trait': ok('GET', '/resource_providers?required=!CUSTOM_T2'),
         'error_code': lambda v: 'code' in ((call('GET', '/resource_providers/' + U('p11'), v)[2] or {}).get('errors') or [{}])[0],
+        # errors that carry a code of their own (not the default one), each refused at every version
+        'error_code_concurrent_update': lambda v: has_code(call('PUT', rp1 + '/inventories/VCPU', v, dict(
+            INV_JSON(8, 0), resource_provider_generation=_gen(app, 'p1') + 7)), 409),
+        'error_code_duplicate_name': lambda v: has_code(call('POST', '/resource_providers', v, {'name': 'p1', 'uuid': U('p9')}), 409),
+        'error_code_duplicate_name_on_update': lambda v: has_code(call('PUT', '/resource_providers/' + U('p4'), v, {'name': 'p1'}), 409),
+        'error_code_inventory_inuse': lambda v: has_code(call('DELETE', rp1 + '/inventories/VCPU', v), 409),
+        'error_code_cannot_delete_parent': lambda v: has_code(call('DELETE', rp1, v), 409),
+        'error_code_provider_inuse': lambda v: provider_inuse(v),
         'rp_list_repeated_member_of': ok('GET', '/resource_providers?member_of=%s&member_of=%s' % (agg1, agg1)),
         'ac_granular': ok('GET', '/allocation_candidates?resources1=VCPU:1'),
         'inv_reserved_equals_total': lambda v: call('PUT', rp2 + '/inventories/VCPU', v,
@@ -354,6 +373,46 @@ def policy_lines(app, db0, rnd, tier, rules):
             pass
     set_override(app, '', '')
     app.restore('surf')
+    lines.extend(scope_lines(app))
+    return lines
+
+
+OWN_USAGES = {'VCPU': 1, 'DISK_GB': 5}       # proj1, see base_state
+OTHER_USAGES = {'VCPU': 2}                   # proj2
+
+
+def scope_lines(app):
+    """GET /usages names the project in the query: every way of naming one or
+    two projects (own / another), by each kind of caller, with and without a
+    user_id, at the versions that differ (1.9, 1.38 with consumer_type)."""
+    import itertools
+    lines = []
+    pid = {'own': 'proj1', 'other': 'proj2'}
+    for caller in ('noroles', 'reader_own', 'member', 'admin', 'service'):
+        for n in (1, 2, 3):
+            for projs in itertools.product(('own', 'other'), repeat=n):
+                for extra in ('', '&user_id=user1', '&user_id=user2', '&consumer_type=INSTANCE'):
+                    v = '1.38' if 'consumer_type' in extra else '1.9'
+                    q = '&'.join('project_id=' + pid[p] for p in projs) + extra
+                    st, h, b = app.call('GET', '/usages?' + q, hdr(v, caller))
+                    data = 'none'
+                    if st == 200:
+                        try:
+                            u = json.loads(b).get('usages', {})
+                        except Exception:
+                            u = None
+                        if isinstance(u, dict) and 'INSTANCE' in u:       # 1.38: keyed by consumer type
+                            u = {k: x for k, x in u['INSTANCE'].items() if k != 'consumer_count'}
+                        if not u:
+                            data = 'none'
+                        elif all(u.get(k) in (None, OWN_USAGES[k]) for k in u) and set(u) <= set(OWN_USAGES) and u != OTHER_USAGES:
+                            data = 'own'
+                        elif u == OTHER_USAGES:
+                            data = 'other'
+                        else:
+                            data = 'mixed'
+                    lines.append({'kind': 'scope', 'caller': caller, 'projs': list(projs), 'status': st,
+                                  'data': data, 'query': q})
     return lines
 
 
